@@ -44,6 +44,7 @@ UN = {
     "conj": (mp.conj, lambda z, w: 1),
     "neg": (lambda z: -z, lambda z, w: 1),
     "inv": (inv, lambda z, w: 1),
+    "proj": (lambda z: z, lambda z, w: 1),          # cproj is the identity on finite values
     "sqrt": (mp.sqrt, lambda z, w: mp.mpf(1) / 2),
     "exp": (mp.exp, lambda z, w: abs(z)),
     "log": (mp.log, lambda z, w: 1 / abs(w)),
